@@ -12,6 +12,12 @@
                     most one delivery begins after an `Unsubscribe` from another goroutine returned
                     (the one that had already passed `subscriberImpl`'s status test,
                     `subscriber.go:176-199` — `Unsubscribe` does not wait for it, `:260-264`);
+                    silence after context cancellation, as a COUNT (no upper bound on time): the
+                    deliveries that begin after `cancel()` returned are at most `cancelSlack` (ticks the
+                    `select` loop may still take, the one under way included) + 2 (the flush and the
+                    terminal that the cancellation itself produces) + one per source call that returned
+                    after the cancellation (a count-flush, or the flush of the source's completion) —
+                    however late they arrive; a stream that keeps delivering is rejected;
     per operator `OpAt` (one condition per delivery, indexed by its position `k`).
 -/
 import RoModel.Timed
@@ -86,7 +92,9 @@ def SilentOK (tr : TimedTrace) : Prop :=
   match tr.cut with
   | .unsubOut _ u1 => (tr.dels.filter (fun e => decide (u1 < e.t0))).length ≤ 1
   | .unsubIn k _ _ => tr.dels.length ≤ k + 1
-  | _ => True
+  | .cancel _ c1 =>
+    lateCount c1 tr.dels ≤ cancelSlack + 2 + (tr.emits.filter (fun e => decide (c1 < e.t1))).length
+  | .none => True
 
 instance (tr : TimedTrace) : Decidable (SilentOK tr) := by unfold SilentOK; split <;> infer_instance
 
@@ -274,13 +282,13 @@ def extraFlushes (cnt : Option Nat) (tr : TimedTrace) (t : Time) : Nat :=
     source values, each after it was emitted, consecutive inside a buffer, buffers in source order,
     no more than `n` per buffer, and no more buffers than ticks (k-th tick not before k periods) plus
     the flushes that do not need a tick. -/
-def BufferAt (cnt : Option Nat) (p : Nat) (tr : TimedTrace) (k : Nat) (dl : Ev) : Prop :=
+def BufferAt (cnt : Option Nat) (xo : Bool) (p : Nat) (tr : TimedTrace) (k : Nat) (dl : Ev) : Prop :=
   match dl.n with
   | .buf vs =>
     (match cnt with | some n => vs.length ≤ n | none => True)
     ∧ (∀ v ∈ vs, match srcOf tr (.next v) with | some (_, e) => e.t0 ≤ dl.t0 | none => False)
     ∧ Contiguous tr vs
-    ∧ AfterEarlierBuffers tr k vs
+    ∧ (xo = true → AfterEarlierBuffers tr k vs)
     ∧ tr.sub + (k + 1 - extraFlushes cnt tr dl.t0) * p ≤ dl.t0
   | .complete => (match srcOf tr dl.n with | some (_, e) => e.t0 ≤ dl.t0 | none => False) ∨ CancelledBy tr dl.t0
   | .error _ => (match srcOf tr dl.n with | some (_, e) => e.t0 ≤ dl.t0 | none => False)
@@ -293,7 +301,7 @@ instance (tr : TimedTrace) (n : TN) (t : Time) : Decidable
 instance (cnt : Option Nat) (vs : List Int) : Decidable (match cnt with | some n => vs.length ≤ n | none => True) := by
   split <;> infer_instance
 
-instance (cnt : Option Nat) (p : Nat) (tr : TimedTrace) (k : Nat) (dl : Ev) : Decidable (BufferAt cnt p tr k dl) := by
+instance (cnt : Option Nat) (xo : Bool) (p : Nat) (tr : TimedTrace) (k : Nat) (dl : Ev) : Decidable (BufferAt cnt xo p tr k dl) := by
   unfold BufferAt; split <;> infer_instance
 
 /-! ### the clause of one operator, and the acceptor -/
@@ -309,8 +317,8 @@ def OpAt (cfg : Cfg) (tr : TimedTrace) (k : Nat) (dl : Ev) : Prop :=
   | .rangeWithInterval => RangeAt cfg.a cfg.b cfg.d tr k dl
   | .throttleTime => ThrottleAt cfg.d tr k dl
   | .sampleTime => SampleAt cfg.d tr k dl
-  | .bufferWithTime => BufferAt none cfg.d tr k dl
-  | .bufferWithTimeOrCount => BufferAt (some cfg.n) cfg.d tr k dl
+  | .bufferWithTime => BufferAt none cfg.xorder cfg.d tr k dl
+  | .bufferWithTimeOrCount => BufferAt (some cfg.n) cfg.xorder cfg.d tr k dl
 
 instance (cfg : Cfg) (tr : TimedTrace) (k : Nat) (dl : Ev) : Decidable (OpAt cfg tr k dl) := by
   unfold OpAt; split <;> infer_instance
@@ -328,10 +336,13 @@ instance (cfg : Cfg) (tr : TimedTrace) : Decidable (Clause cfg tr) := by unfold 
 /-- The executable acceptor: the decision procedure of `Clause`. -/
 def accepts (cfg : Cfg) (tr : TimedTrace) : Bool := decide (Clause cfg tr)
 
-/-- which part rejects (for the replay file) -/
+/-- which part rejects (for the replay file). `buffer-order`: a `BufferWithTimeOrCount` trace that
+    satisfies every clause except the order ACROSS buffers — the class of the known finding
+    "unlock-then-emit window" (ticker flush against count flush; `C16.buffer_window_witness`). -/
 def why (cfg : Cfg) (tr : TimedTrace) : String :=
-  if ¬ GrammarOK tr then "after-terminal"
-  else if ¬ SilentOK tr then "after-unsubscribe"
+  if cfg.op = .bufferWithTimeOrCount ∧ Clause { cfg with xorder := false } tr then "buffer-order"
+  else if ¬ GrammarOK tr then "after-terminal"
+  else if ¬ SilentOK tr then (match tr.cut with | .cancel _ _ => "after-cancel" | _ => "after-unsubscribe")
   else
     match (List.range tr.dels.length).find? (fun k => match tr.dels[k]? with
         | some dl => !decide (OpAt cfg tr k dl)
